@@ -5,7 +5,7 @@ set -u
 REV=""
 if [ "$1" = "-R" ]; then REV="-R"; shift; fi
 PATCH=$(realpath "$1"); shift
-WT=/tmp/wt/try
+WT=${TRYWT:-/tmp/wt/try}
 (cd /verif/checker && GOFLAGS=-mod=mod GOPROXY=off go build -o /verif/.bin/sialint ./cmd/sialint) || exit 2
 if [ ! -d $WT ]; then git -C /repo worktree add -q --detach $WT HEAD; fi
 git -C $WT checkout -q --detach $(git -C /repo rev-parse HEAD) 2>/dev/null
